@@ -214,6 +214,28 @@ type world struct {
 }
 
 func (w *world) classify(name string, args []string) (tool, kind, file string) {
+	// a command wrapped in a shell or in env is the command it wraps:
+	// sh -c "command -v goimports", env goimports -w f.go, ...
+	switch filepath.Base(name) {
+	case "sh", "bash", "dash", "env":
+		var words []string
+		for _, a := range args {
+			if a == "-c" || strings.HasPrefix(a, "-") && len(words) == 0 {
+				continue
+			}
+			words = append(words, strings.Fields(a)...)
+		}
+		for len(words) > 0 && strings.Contains(words[0], "=") {
+			words = words[1:] // VAR=value prefixes
+		}
+		if len(words) > 0 {
+			tool, kind, file = w.classify(words[0], words[1:])
+			if kind == "locate" && words[0] != "which" && words[0] != "whereis" {
+				kind = "locate-builtin" // command -v, type, hash: part of the shell
+			}
+			return tool, kind, file
+		}
+	}
 	all := append([]string{name}, args...)
 	for _, a := range all[1:] {
 		if w.files[filepath.Base(a)] {
@@ -225,7 +247,7 @@ func (w *world) classify(name string, args []string) (tool, kind, file string) {
 		kind = "run"
 	}
 	switch filepath.Base(name) {
-	case "which", "command", "type", "whereis":
+	case "which", "command", "type", "whereis", "hash":
 		for _, a := range args {
 			for _, t := range toolNames {
 				if strings.Contains(a, t) {
@@ -233,7 +255,7 @@ func (w *world) classify(name string, args []string) (tool, kind, file string) {
 				}
 			}
 		}
-		return tool, "probe", file
+		return tool, "locate", file
 	case "goimports", "gofmt":
 		tool = "goimports"
 	case "dart", "dartfmt":
@@ -281,10 +303,13 @@ func (e exitErr) Error() string { return fmt.Sprintf("exit status %d", e.code) }
 
 func (w *world) exec(name string, args []string, dir string) ([]byte, error) {
 	tool, kind, file := w.classify(name, args)
+	locate, builtin := strings.HasPrefix(kind, "locate"), kind == "locate-builtin"
+	if locate {
+		kind = "probe"
+	}
 	w.events = append(w.events, execEvent{G: verifsim.CurrentG(), Cmd: strings.ReplaceAll(strings.Join(append([]string{name}, args...), " "), w.outDir, "<out>"), Tool: tool, Kind: kind, File: file})
-	base := filepath.Base(name)
-	if base == "which" || base == "command" || base == "type" || base == "whereis" {
-		if !w.p.Which {
+	if locate {
+		if !w.p.Which && !builtin {
 			w.out.Fault("which_not_installed")
 			return nil, &exec.Error{Name: name, Err: exec.ErrNotFound}
 		}
